@@ -486,6 +486,11 @@ class Exec:
         if isinstance(it, DictV):
             x = self.ctx.fresh_name("it")
             return NameV(x), it.dom(x), [x]
+        from pyvc.models import DictItems
+        if isinstance(it, DictItems):
+            x = self.ctx.fresh_name("it")
+            v = it.d.val(x)
+            return TupleV([NameV(x), v]), it.d.dom(x), [x]
         if isinstance(it, BBItems):
             x = self.ctx.fresh_name("it")
             rec = st.heap[it.oid]
@@ -932,6 +937,9 @@ class Exec:
                 same = isinstance(l, NoneV) and isinstance(r, NoneV)
                 return same if isinstance(op, ast.Is) else (not same)
             raise Unsupported("is")
+        if isinstance(l, SignedV) and isinstance(op, ast.Gt) and r == 0:
+            from pyvc import models
+            return z3.Select(models.mu_of(self), l.obj)
         a, b = self.num(l), self.num(r)
         if isinstance(op, ast.Gt):
             return a > b
@@ -1038,6 +1046,8 @@ class Exec:
                 return NameV(self.ctx.template(parts)(*holes))
             return self.num(l) + self.num(r)
         if isinstance(op, ast.Sub):
+            if isinstance(l, LitV) and l.pos and r == 1:
+                return IndexV(l.obj)
             if isinstance(l, Coll) and isinstance(r, Coll):
                 return Coll(lambda x: z3.And(l.mem(x), z3.Not(r.mem(x))))
             return self.num(l) - self.num(r)
@@ -1082,6 +1092,12 @@ class Exec:
 
     def subscript(self, e, st):
         base = self.ev(e.value, st)
+        if isinstance(base, ModelV):
+            idx = self.ev(e.slice, st)
+            if isinstance(idx, IndexV):
+                self.split_raise(st, z3.Not(z3.Select(base.men, idx.obj)), "IndexError")
+                return SignedV(idx.obj)
+            raise Unsupported("model index")
         if isinstance(base, ErrList):
             return base
         if isinstance(base, Opaque):
@@ -1236,6 +1252,8 @@ class Exec:
         if isinstance(k, NameV) and k.term.eq(x) and isinstance(v, NameV) and not gen.ifs:
             t = v.term
             return DictV(lambda y, c=cond, x=x: z3.substitute(c, (x, y)), lambda y, t=t, x=x: NameV(z3.substitute(t, (x, y))))
+        if isinstance(k, NameV) and k.term.eq(x) and z3.is_expr(v) and v.sort() == B and not gen.ifs:
+            return DictV(lambda y, c=cond, x=x: z3.substitute(c, (x, y)), lambda y, t=v, x=x: z3.substitute(t, (x, y)), vkind="bool")
         raise Unsupported("dict comprehension")
 
     # ------------------------------------------------------------------ calls
@@ -1279,6 +1297,9 @@ class Exec:
                 models.used("pysat." + nm)
                 rec = {"kind": nm, "sat": z3.BoolVal(True), "men": z3.K(self.ctx.Obj, z3.BoolVal(False))}
                 return ObjRef(alloc(st, rec, nm.lower()), nm)
+            if nm in st.env and isinstance(st.env[nm], ClassV):
+                from pyvc import models
+                return models.instantiate(self, st.env[nm], e, st)
             if nm in st.env and isinstance(st.env[nm], FuncV):
                 return self.call_local(st.env[nm], e, st)
             if nm in self.summaries:
@@ -1291,7 +1312,14 @@ class Exec:
 
     def args_of(self, e, st):
         args = [self.ev(a, st) for a in e.args]
-        kwargs = {k.arg: self.ev(k.value, st) for k in e.keywords}
+        kwargs = {}
+        for k in e.keywords:
+            v = self.ev(k.value, st)
+            if k.arg is None:
+                if isinstance(v, DictV) and v.items == []:
+                    continue  # **{}
+                raise Unsupported("**kwargs")
+            kwargs[k.arg] = v
         return args, kwargs
 
     def invoke(self, summary, recv, e, st):
@@ -1367,6 +1395,32 @@ class LitColl:
 
     def union(self, other):
         return LitColl(lambda o: z3.Or(self.pos(o), other.pos(o)), lambda o: z3.Or(self.neg(o), other.neg(o)))
+
+
+class ClassV:
+    def __init__(self, name):
+        self.name = name
+
+
+class ModelV:
+    """result of solver.get_model(): a list m with m[i-1] == +-i for every variable i that occurs in a clause"""
+
+    def __init__(self, men):
+        self.men = men
+
+
+class IndexV:
+    """the integer id(obj) - 1"""
+
+    def __init__(self, obj):
+        self.obj = obj
+
+
+class SignedV:
+    """the integer +-id(obj), positive iff mu[obj]"""
+
+    def __init__(self, obj):
+        self.obj = obj
 
 
 class CharV:
